@@ -283,11 +283,13 @@ def run(ctx):
             for k in range(1, N + 1):
                 zk = vec("rough", k)
                 ctx.count(["rough", bi, k, G.flat(p0["E"])[:48]])
-                if (z0 != z0) != (zk != zk):
-                    ctx.oracle_fail("roughness() is NaN for only one of the original / %s" % rep(k)["transformation"],
-                                    rep(k, {"output": "roughness", "transformed_value": zk, "original_value": z0}))
-                    break
-                if z0 == z0 and abs(math.log(zk) - math.log(z0)) > 4e-6:
+                if z0 != z0 or zk != zk:
+                    # the Newton iteration did not converge for at least one of the two inputs; where it does not
+                    # converge its outcome (NaN or a spurious last iterate) is decided by rounding -> not compared
+                    if (z0 != z0) != (zk != zk):
+                        ctx.tally("roughness: solver converged for only one of original / transformed input (not compared)")
+                    continue
+                if abs(math.log(zk) - math.log(z0)) > 4e-6:
                     ctx.oracle_fail("roughness() changes under %s: %r vs %r" % (rep(k)["transformation"], zk, z0),
                                     rep(k, {"output": "roughness", "transformed_value": zk, "original_value": z0}))
                     break
